@@ -235,10 +235,11 @@ def replay_sessions(chk, behs):
                 chk.violation("C10.ResultDependsOnHistory", k, {**det, "result_kind": o[1][0], "fresh_kind": oracle[key_or][0]})
             if e["a"] == "FireBadTable" and o[1][0] == "FireBadTable:returned":
                 pass   # reported above as a result that differs from the fresh calculator's (which raises)
-            elif e["ok"] and ":" in o[1][0]:
-                raise core.MachineryError(f"scenario binding: {e['a']} was expected to succeed but gave {o[1][0]}")
-            elif not e["ok"] and ":" not in o[1][0] or (not e["ok"] and o[1][0].endswith(":returned")):
-                raise core.MachineryError(f"scenario binding: {e['a']} was expected to raise but gave {o[1][0]}")
+            elif (e["ok"] and ":" in o[1][0]) or (not e["ok"] and ":" not in o[1][0]) or (not e["ok"] and o[1][0].endswith(":returned")):
+                # the scenario was built so that this operation succeeds / raises; a tree on which it does the opposite is wrong
+                # about something else (limits, reach) - not C10's business as long as it does so EVERY time (oracle above)
+                chk.extra.setdefault("operations_with_unexpected_outcome_kind", {}).setdefault(e["a"] + " -> " + o[1][0], 0)
+                chk.extra["operations_with_unexpected_outcome_kind"][e["a"] + " -> " + o[1][0]] += 1
             # (ii) nothing mutated except the stored zero the spec allows to change
             new = pool.snapshot()
             if e["a"] == "EditTable":
